@@ -9,6 +9,8 @@
     priv_ser <xprv> <version>                               parse(...).xprv(version) , .xpub()
     pub_parse <xpub> | pub_child <xpub> <index:int> | pub_trav <xpub> <path> | pub_trav_f08a <xpub> <path>
     pub_ser <xpub> <version>
+    k_ser <seed> <net> <pv|-> <bv|-> <path> <pver|-> <bver|->   key at path: xprv(pver) xpub(bver) pub.raw_serialize()
+    k_child / k_pubchild … <path> <index:int> | k_pubtrav … <path> <path2>   (used by the object-reuse histories)
     consistent <xprv> <index:int>                           (child.pub dump, pub.child dump)
     valid_path <path> | combine <p> <q> | secret_path k r1…rk | blind <xpub> <p> <s>
     child_to_path <n> | bin_path <bytes>
@@ -123,6 +125,50 @@ def handle : List String → String
           | some c => (dumpPub c).getD "unserialisable"
           | none => REJECT
         pure s!"{a} | {b}"
+  | ["k_ser", seed, net, pv, bv, path, pver, bver] => optS do
+      let seed ← parseBytes seed
+      let net ← parseStr net
+      let pv ← parseOptBytes pv
+      let bv ← parseOptBytes bv
+      let path ← parseS path
+      let pver ← parseOptBytes pver
+      let bver ← parseOptBytes bver
+      pure <| orReject do
+        let k ← (← fromSeed hmac seed net pv bv).traverse hmac h160 path
+        let a := ((k.xprv h256 pver).map fmtS).getD REJECT
+        let b := ((k.xpub h256 bver).map fmtS).getD REJECT
+        let c := (k.pub.rawSerialize.map fmtBytes).getD REJECT
+        pure s!"{a} {b} {c}"
+  | ["k_child", seed, net, pv, bv, path, i] => optS do
+      let seed ← parseBytes seed
+      let net ← parseStr net
+      let pv ← parseOptBytes pv
+      let bv ← parseOptBytes bv
+      let path ← parseS path
+      let i ← parseInt i
+      pure <| orReject do
+        let k ← (← fromSeed hmac seed net pv bv).traverse hmac h160 path
+        dumpPriv (← k.childI hmac h160 i)
+  | ["k_pubchild", seed, net, pv, bv, path, i] => optS do
+      let seed ← parseBytes seed
+      let net ← parseStr net
+      let pv ← parseOptBytes pv
+      let bv ← parseOptBytes bv
+      let path ← parseS path
+      let i ← parseInt i
+      pure <| orReject do
+        let k ← (← fromSeed hmac seed net pv bv).traverse hmac h160 path
+        dumpPub (← k.pub.childI hmac h160 i)
+  | ["k_pubtrav", seed, net, pv, bv, path, path2] => optS do
+      let seed ← parseBytes seed
+      let net ← parseStr net
+      let pv ← parseOptBytes pv
+      let bv ← parseOptBytes bv
+      let path ← parseS path
+      let path2 ← parseS path2
+      pure <| orReject do
+        let k ← (← fromSeed hmac seed net pv bv).traverse hmac h160 path
+        dumpPub (← k.pub.traverse hmac h160 path2)
   | ["valid_path", p] => optS do
       let p ← parseS p
       pure (fmtBool (isValidBip32Path p))
